@@ -19,7 +19,7 @@ from harness import core
 from harness import pandora_util as pu
 from harness.props.c01 import expected_trace_py
 
-GEN = ["gen_tables"]
+GEN = ["gen_tables", "gen_msconst"]
 EXTRACT_FILES = ["X15"]
 DRIVERS = ["x15"]
 RULE = ("random pandora.run executions: sad, window 3/5, images 12..30 x 14..36 (mono, 2-band, with/without masks with "
@@ -331,7 +331,7 @@ def run(ctx):
                                     "disp": (-9, 9), "marge": 2, "pre": ["validation"], "post": ["refinement"]}))
         cases.append(gen_case(rng, {"rows": 18, "cols": 21, "bands": 2, "masks": False, "sf": 3, "n": 2,
                                     "disp": (-6, 3), "marge": 0, "pre": ["filter"], "post": ["validation"]}))
-        cases.append(gen_case(rng, {"rows": 204, "cols": 230, "bands": 1, "masks": False, "sf": 2, "n": 2, "ws": 3,
+        cases.append(gen_case(rng, {"rows": 212, "cols": 230, "bands": 1, "masks": False, "sf": 2, "n": 2, "ws": 3,
                                     "disp": (-4, 2), "marge": 1, "pre": [], "post": []}))
         for _ in range(22 if quick else 300):
             cases.append(gen_case(rng))
@@ -498,4 +498,6 @@ def run(ctx):
         ctx.count("zoom_contract_checked")
         if got != list(want):
             ctx.mismatch("zoom_index_map", {"n": n_, "sf": sf_}, got, want)
-    ctx.gen_obligations = ["run_tbl_wf Gen.Tables.run_table = true (vm_compute), shared with C01"]
+    ctx.gen_obligations = ["run_tbl_wf Gen.Tables.run_table = true (vm_compute), shared with C01",
+                           "Gen.MsConst (chunk size of disparity_range, class defaults, PANDORA_MSK_PIXEL_INVALID) = constants "
+                           "of Model/Multiscale.v and 1 <= chunk size (C15_constants_match)"]
